@@ -125,6 +125,15 @@ fn check(c: &Case, obs: &mut Obs) {
                 Some(b) => obs.fail("C21:frame_pixel_data of a native object differs from the stored frame", format!("frame {k}: {}", first_diff(&b, exp))),
                 None => obs.fail("C21:frame_pixel_data of a native object yields nothing for an existing frame", format!("frame {k} of {}", im.frames)),
             }
+        } else {
+            // 1-bit: documented as a byte slice that "may include leading or trailing bits belonging to other
+            // frames" - so it must be exactly the bytes that hold the frame's bits (fsz = samples = bits here)
+            let (b0, b1) = (k as usize * fsz / 8, ((k as usize + 1) * fsz).div_ceil(8));
+            match obj.frame_pixel_data(k) {
+                Some(b) if b1 <= im.data.len() && b[..] == im.data[b0..b1] => {}
+                Some(b) => obs.fail("C21:frame_pixel_data of a native 1-bit object is not the bytes holding the frame's bits", format!("frame {k} of {}: {} bytes, the frame's bits occupy bytes {b0}..{b1} of {}", im.frames, b.len(), im.data.len())),
+                None => obs.fail("C21:frame_pixel_data of a native object yields nothing for an existing frame", format!("frame {k} of {} (1-bit)", im.frames)),
+            }
         }
     }
 }
@@ -132,7 +141,7 @@ fn check(c: &Case, obs: &mut Obs) {
 pub fn run(ctx: &Ctx) {
     ctx.run_prop(
         "native_frames",
-        "G-IMG native images: bits allocated 1/8/16, 1 or 3 samples, rows/cols 1-17, 1-7 frames, random and run-shaped pixel bytes, three native transfer syntaxes, decoded as built and as re-read from a written file; oracle from the IR: whole-object samples == stored data (1-bit: bit i of the continuously packed stream -> 0/255), frame_data(k), decode_pixel_data_frame(k) and native frame_pixel_data(k) == frame k of it; non-trivial = several frames or a 1-bit pixel count not divisible by 8",
+        "G-IMG native images: bits allocated 1/8/16, 1 or 3 samples, rows/cols 1-17, 1-7 frames, random and run-shaped pixel bytes, three native transfer syntaxes, decoded as built and as re-read from a written file; oracle from the IR: whole-object samples == stored data (1-bit: bit i of the continuously packed stream -> 0/255), frame_data(k), decode_pixel_data_frame(k) and native frame_pixel_data(k) == frame k of it (1-bit: frame_pixel_data(k) == exactly the bytes that hold the frame's bits); non-trivial = several frames or a 1-bit pixel count not divisible by 8",
         || (img::img(ImgCfg { one_bit: true, max_frames: 7, large: false }), 0u8..3, any::<bool>()).prop_map(|(img, ts, via_file)| Case { img, ts, via_file }).boxed(),
         ctx.cases(8_000, 150_000),
         check,
